@@ -132,6 +132,33 @@ class Fn:
                 st.extend(self.pred[x])
         return res
 
+    def loop_test(self, head):
+        """(blocks of the straight-line chain from the loop head up to and including its first switch, callee names on
+        that chain).  An edge that leaves the loop from the switch of this chain is the loop's own test failing
+        (`next()` answered None, `while` condition false); any other way out is an early exit."""
+        body = self.loops().get(head, set())
+        chain, callees, cur = [], [], head
+        while cur in body and cur not in chain:
+            chain.append(cur)
+            t = self.blocks[cur]['term']
+            k = t[0]
+            if k == 'switch':
+                return chain, callees, cur
+            if k == 'goto':
+                cur = t[1]
+            elif k == 'call':
+                callees.append(self.callee_name(t[1]) or '')
+                cur = t[4]
+            elif k == 'assert':
+                cur = t[4]
+            elif k == 'drop':
+                cur = t[2]
+            else:
+                break
+            if cur is None:
+                break
+        return chain, callees, None
+
     def calls(self):
         """yield (bb, call-dict, args, dest, target, line, from_expansion)"""
         for i, b in enumerate(self.blocks):
